@@ -10,32 +10,74 @@ theorem toLower_val (c : Char) : c.toLower.val = if 65 ≤ c.val ∧ c.val ≤ 9
   · next h => simp at h; simp [h]
   · next h => simp at h; simp; intro a; exact h a
 
-theorem toLower_idem (c : Char) : c.toLower.toLower = c.toLower := by
-  apply Char.ext
-  rw [toLower_val c.toLower, toLower_val c]
-  by_cases h : 65 ≤ c.val ∧ c.val ≤ 90
-  · simp only [h, and_self, if_true]
-    have a1 := UInt32.le_iff_toNat_le.mp h.1
-    have a2 := UInt32.le_iff_toNat_le.mp h.2
-    have e : (c.val + 32).toNat = c.val.toNat + 32 := by
-      rw [UInt32.toNat_add]
-      have : c.val.toNat ≤ 90 := a2
-      have : (32 : UInt32).toNat = 32 := rfl
-      omega
-    have : ¬ (65 ≤ c.val + 32 ∧ c.val + 32 ≤ 90) := by
-      intro ⟨_, h4⟩
-      have a4 := UInt32.le_iff_toNat_le.mp h4
-      rw [e] at a4
-      have : (90 : UInt32).toNat = 90 := rfl
-      have : (65 : UInt32).toNat = 65 := rfl
-      omega
-    simp [this]
-  · simp [h]
+theorem toLower_toNat (c : Char) : c.toLower.toNat = if 65 ≤ c.toNat ∧ c.toNat ≤ 90 then c.toNat + 32 else c.toNat := by
+  have h := toLower_val c
+  unfold Char.toNat
+  rw [h]
+  by_cases hc : 65 ≤ c.val ∧ c.val ≤ 90
+  · have a1 := UInt32.le_iff_toNat_le.mp hc.1
+    have a2 := UInt32.le_iff_toNat_le.mp hc.2
+    have e65 : (65 : UInt32).toNat = 65 := rfl
+    have e90 : (90 : UInt32).toNat = 90 := rfl
+    have e32 : (32 : UInt32).toNat = 32 := rfl
+    have : (65 ≤ c.val.toNat ∧ c.val.toNat ≤ 90) := ⟨by omega, by omega⟩
+    simp only [hc, this, and_self, if_true]
+    rw [UInt32.toNat_add]; omega
+  · have : ¬ (65 ≤ c.val.toNat ∧ c.val.toNat ≤ 90) := by
+      intro ⟨x, y⟩
+      apply hc
+      exact ⟨UInt32.le_iff_toNat_le.mpr (by simpa using x), UInt32.le_iff_toNat_le.mpr (by simpa using y)⟩
+    rw [if_neg hc, if_neg this]
 
-def lowerL (cs : List Char) : List Char := cs.map Char.toLower
+theorem ofNat_toNat_small (n : Nat) (h : n < 0xD800) : (Char.ofNat n).toNat = n := by
+  have hv : n.isValidChar := Or.inl h
+  simp [Char.ofNat, hv, Char.toNat, Char.ofNatAux]
+
+theorem goToLower_idem (c : Char) : goToLower (goToLower c) = goToLower c := by
+  by_cases h : isLatin1Upper c = true
+  · have hn : 0xC0 ≤ c.toNat ∧ c.toNat ≤ 0xDE := by
+      unfold isLatin1Upper at h; simp at h; exact ⟨h.1.1, h.1.2⟩
+    have e1 : goToLower c = Char.ofNat (c.toNat + 32) := by unfold goToLower; simp [h]
+    have t1 : (Char.ofNat (c.toNat + 32)).toNat = c.toNat + 32 := ofNat_toNat_small _ (by omega)
+    have nl : isLatin1Upper (Char.ofNat (c.toNat + 32)) = false := by
+      unfold isLatin1Upper; rw [t1]; simp; omega
+    rw [e1]
+    unfold goToLower
+    simp only [nl, Bool.false_eq_true, if_false]
+    apply Char.ext
+    have := toLower_toNat (Char.ofNat (c.toNat + 32))
+    rw [t1] at this
+    have hne : ¬ (65 ≤ c.toNat + 32 ∧ c.toNat + 32 ≤ 90) := by omega
+    simp only [hne, if_false] at this
+    apply UInt32.toNat_inj.mp
+    show (Char.ofNat (c.toNat + 32)).toLower.toNat = (Char.ofNat (c.toNat + 32)).toNat
+    rw [this, t1]
+  · have h' : isLatin1Upper c = false := by simpa using h
+    have e1 : goToLower c = c.toLower := by unfold goToLower; simp [h']
+    rw [e1]
+    unfold goToLower
+    have tn := toLower_toNat c
+    have nl : isLatin1Upper c.toLower = false := by
+      unfold isLatin1Upper at h' ⊢
+      rw [tn]
+      by_cases hc : 65 ≤ c.toNat ∧ c.toNat ≤ 90
+      · simp [hc]; omega
+      · simp only [hc, if_false]; exact h'
+    simp only [nl, Bool.false_eq_true, if_false]
+    apply Char.ext
+    apply UInt32.toNat_inj.mp
+    show c.toLower.toLower.toNat = c.toLower.toNat
+    rw [toLower_toNat c.toLower, tn]
+    by_cases hc : 65 ≤ c.toNat ∧ c.toNat ≤ 90
+    · simp only [hc, and_self, if_true]
+      have : ¬ (65 ≤ c.toNat + 32 ∧ c.toNat + 32 ≤ 90) := by omega
+      rw [if_neg this]
+    · simp [hc]
+
+def lowerL (cs : List Char) : List Char := cs.map goToLower
 
 theorem lowerL_idem (cs : List Char) : lowerL (lowerL cs) = lowerL cs := by
-  simp [lowerL, toLower_idem]
+  simp [lowerL, goToLower_idem]
 
 theorem lowerL_append (a b : List Char) : lowerL (a ++ b) = lowerL a ++ lowerL b := by simp [lowerL]
 
@@ -50,13 +92,13 @@ theorem lowerL_lowerFirstWordL (cs : List Char) : lowerL (lowerFirstWordL cs) = 
     · split
       · -- (c :: nonUp).map toLower ++ after
         rw [lowerL_append]
-        have h1 : lowerL ((c :: rest.takeWhile fun x => !x.isUpper).map Char.toLower) = lowerL (c :: rest.takeWhile fun x => !x.isUpper) :=
+        have h1 : lowerL ((c :: rest.takeWhile fun x => !x.isUpper).map goToLower) = lowerL (c :: rest.takeWhile fun x => !x.isUpper) :=
           lowerL_idem _
         rw [h1, ← lowerL_append]
         simp [List.takeWhile_append_dropWhile]
       · split
         · rw [lowerL_append, lowerL_append]
-          have h1 : lowerL (((c :: rest).takeWhile Char.isUpper).dropLast.map Char.toLower) = lowerL ((c :: rest).takeWhile Char.isUpper).dropLast :=
+          have h1 : lowerL (((c :: rest).takeWhile Char.isUpper).dropLast.map goToLower) = lowerL ((c :: rest).takeWhile Char.isUpper).dropLast :=
             lowerL_idem _
           rw [h1, ← lowerL_append, ← lowerL_append]
           congr 1
